@@ -209,6 +209,10 @@ func genC08(r *rand.Rand, run int, _ string) *Scenario {
 	be := sc.BE
 	be.Cfg = BEConfig{TTLNs: 3600 * sec, Jitter: pick(r, -1.0, 0), Strategy: r.IntN(3), Stats: chance(r, 0.15), Logger: chance(r, 0.1)}
 
+	if be.Cfg.Stats && chance(r, 0.5) {
+		be.Cfg.ItemsReportNs = pick(r, ms, 5*ms) // the items-count reporter goroutine runs alongside (Len + gauge)
+	}
+
 	if chance(r, 0.5) {
 		be.Cfg.JanitorIntervalNs = pick(r, ms, 5*ms, 20*ms)
 		be.Cfg.DeleteExpiredAfterNs = pick(r, ms, 50*ms)
